@@ -226,6 +226,9 @@ def run_lin_job(job, scratch):
             else:
                 ev = ev.get("call", ev)
             rules = [",".join(["C03"] + job.get("also", [])) + ":history-has-no-linearization"]
+            if ev.get("ev") == "crashfinal":
+                rules = [",".join(["C01", "C07", "C03"]) + ":state-recovered-after-the-history-is-not-allowed-by-any-linearization"]
+                ev = {"ev": "crashfinal", "ok": ev.get("ok"), "err": ev.get("err"), "dump": ev.get("dump")}
         reset = evs[0]
         viols.append({"line": stuck, "seg": sg, "rules": rules, "ev": "inv", "proc": ev.get("proc", ""), "job": job["name"],
                       "driver_cmd": job["driver"], "event": ev if isinstance(ev, dict) else {}, "driver": reset.get("driver", ""),
@@ -723,6 +726,17 @@ def fsproto_jobs(q, which):
     return jobs
 
 
+def commitwin_jobs(q, also=None):
+    """fourth window family: a victim held inside its commit while others commit; then a crash (NfsLin.FinalCrash)"""
+    jobs = []
+    for k in range(4):
+        j = {"name": "wincommit%d" % k, "kind": "lin", "driver": ["windows", "-part", "-3", "-parts", "4", "-seed", str(k)]}
+        if also:
+            j["also"] = also
+        jobs.append(j)
+    return jobs
+
+
 def probe_job(prop, avoid):
     return {"name": "probes-" + prop, "module": "NfsTrace.tla", "cfg": "NfsTrace.cfg",
             "driver": ["probes", "-prop", prop]}
@@ -836,6 +850,7 @@ def plan(prop, tier, seed, known):
             jobs.append(crash_job("unstable%d" % i, seed * 100 + i, "crashun", 1 if q else 2, 35 if q else 50, av, disk=3200,
                                   extra=["-loss", "2" if q else "5", "-cont", "3", "-nested", "1"]))
         jobs.append(crash_job("crashscript2", 2, "script", 1, 0, av, disk=3200, extra=["-loss", "2" if q else "6", "-cont", "2", "-nested", "1"]))
+        jobs += commitwin_jobs(q, ["C07", "C01"])
         jobs.append(seq_job("unstseq", seed, "data,mix", 4 if q else 16, 250, av))
         jobs.append(probe_job(prop, av))
     elif prop == "C03":
@@ -852,6 +867,7 @@ def plan(prop, tier, seed, known):
         for k in range(7):   # third family: the inode number is recycled for a new object inside the victim's lock-free window
             jobs.append({"name": "winrecycle%d" % k, "kind": "lin", "also": ["C08"], "driver": ["windows", "-part", "-2", "-parts", "7", "-seed", str(k)]})
         jobs += fsproto_jobs(q, "C03")
+        jobs += commitwin_jobs(q)
         for i in range(1 if q else 12):   # a crash in the middle of a concurrent history leaves a linearization prefix
             jobs.append(conccrash_job("conccrash%d" % i, seed * 100 + 90 + i, 2 + i % 3, 3 if q else 6, 6 if q else 8, av, 60 if q else 150, 2 if q else 4))
     elif prop == "C16":
